@@ -6,18 +6,20 @@ import numpy as np
 from mc.util import fingerprint
 
 RULE = (
-    "full products over a 7-symbol field alphabet (>f8, <i2 (2,), S3, <U2, >i4 (2,2), i1 and one "
-    "seed-chosen generic field): base arrays = every ORDERED selection of 1..K fields x shape "
-    "{(), (3,), (2,2)} (+ (1,), (0,) for the short selections), deterministic non-zero contents; "
-    "[select] x every ordered selection of <=3 names from (the array's names + a missing name) x "
+    "full products over a 7-symbol field alphabet (x >f8, v <i2 (2,), s S3, u <U2, xv >i4 (2,2), b i1 and "
+    "one seed-chosen generic field g; the name 'xv' contains two other names): base arrays = every "
+    "ORDERED selection of 1..3 (T: 1..4) fields x shape {(), (3,), (2,2)} (+ (1,), (0,) for the short "
+    "selections), deterministic non-zero contents; [select] x every ordered selection of <=3 names "
+    "from (the array's names + one of two missing names: 'zz' / the upper-cased first name) x "
     "container {scalar,list,tuple,ndarray} x strict {on,off} for extract_fields/reorder_fields, "
     "{scalar,list} for remove_fields, and x getnames for split_fields(fields=); [add] x 8 descriptor "
     "forms (list / np.dtype object, scalar and sub-array fields, non-native order, clashing names) x "
     "defaults {None, per-field scalars, sub-array shaped, bare scalar}; [combine] every ordered "
-    "selection of 1..4 of 6 disjoint arrays x shape, every list with a shared name, every list with "
-    "one array of another length, the empty list; [copy] every (source selection) x (target made of "
-    "1..2 (T: 3) of the 7 names, each with the same or a wider/byte-swapped type); [copy-by-name] "
-    "every name selection x container x {scalar value, full array value}; [compare] every single-"
+    "selection of 1..4 of 6 disjoint arrays x shape x {list,tuple}, every list of 2..4 with a shared "
+    "name, every list of 2..4 with one array of another length, the empty list; [copy] every (source "
+    "selection) x (target made of 1..2 (T: 3) of the 7 names, each with the same or a wider/byte-"
+    "swapped type); [copy-by-name] every name selection x container {scalar,list,tuple,ndarray} x "
+    "{scalar value, full array value, bare scalar}; [compare] every single-"
     "element perturbation of every field x {same, reversed, extra field on either side, other "
     "sub-array shape} x ignore_missing; [chains, E2] BFS over all chains of 2 (T: 3) operations "
     "from a 12-operation menu on 1..2-field roots, composite compared with the model, every "
@@ -354,10 +356,8 @@ def main(ctx):
     def expand_select(u):
         fields, shape = u
         names = [f[0] for f in fields]
-        cands = [names + [MISSING]]
-        if not ctx.quick:
-            # case sensitivity: the upper-cased first name is a missing name too
-            cands.append(names + [names[0].upper()])
+        # case sensitivity: the upper-cased first name is a missing name too
+        cands = [names + [MISSING], names + [names[0].upper()]]
         seen = set()
         for cand in cands:
             for sel in selections(cand, NSEL):
@@ -379,7 +379,7 @@ def main(ctx):
 
     ctx.lattice("select", base_units(F7, KQ, ctx.pick(2, 4)), one_select, expand=expand_select,
                 bounds=dict(alphabet=F7, max_fields=KQ, max_names=NSEL, shapes=MAIN_SHAPES,
-                            small_shapes=SMALL_SHAPES, missing=[MISSING] + ([] if ctx.quick else ["<UPPER>"]),
+                            small_shapes=SMALL_SHAPES, missing=[MISSING, "<first name upper-cased>"],
                             containers=["scalar", "list", "tuple", "array"],
                             ops=["extract_fields", "reorder_fields", "remove_fields", "split_fields"]))
 
@@ -511,7 +511,8 @@ def main(ctx):
             rest = [i for i in range(NDISJOINT) if i != first]
             for k in range(0, KC):
                 for tail in itertools.permutations(rest, k):
-                    yield ("combine", tuple((i, shape) for i in (first,) + tail), cseed)
+                    for cont in ("list", "tuple"):
+                        yield ("combine", tuple((i, shape) for i in (first,) + tail), cseed, cont)
         elif kind == "clash":
             npool = len(POOL)
             for k in (2, 3, 4):
@@ -522,19 +523,20 @@ def main(ctx):
                         continue
                     if k == 4 and idx[0] > 1:
                         continue
-                    yield ("combine", tuple((i, shape) for i in idx), cseed)
+                    yield ("combine", tuple((i, shape) for i in idx), cseed, "list")
         elif kind == "length":
             for common, odd in LENGTH_PAIRS:
                 for a, b in ((common, odd), (odd, common)):
                     for k in (2, 3, 4):
                         for pos in range(k):
-                            yield ("combine", tuple((i, b if i == pos else a) for i in range(k)), cseed)
+                            yield ("combine", tuple((i, b if i == pos else a) for i in range(k)), cseed, "list")
         else:
-            yield ("combine", (), cseed)
+            yield ("combine", (), cseed, "list")
+            yield ("combine", (), cseed, "tuple")
 
     ctx.lattice("combine", units_c, one_combine, expand=expand_combine,
                 bounds=dict(pool=POOL, disjoint=NDISJOINT, max_arrays=KC, shapes=COMB_SHAPES,
-                            length_pairs=LENGTH_PAIRS))
+                            length_pairs=LENGTH_PAIRS, containers=["list", "tuple (disjoint selections)"]))
 
     # ======================================================================
     # part 4: copy_fields(arr1, arr2)
